@@ -354,6 +354,62 @@ def changed_in_place(chk, rng, tier, pairs, answers, stats):
     chk.extra["changed_in_place_histories"] = runs
 
 
+def exotic_examples(chk, rng, tier, stats):
+    """Example values outside the model's universe, chosen for their subclass and equality relations (a named tuple is a tuple, a
+    datetime is a date, an IntEnum member is an int and equals it, True == 1 == 1.0, a str subclass, bytes, Fraction, Decimal, user
+    classes with a subclass): oracle only -- whatever construct() yields within the shallow budget separates the two sets."""
+    import collections
+    import datetime as dtm
+    import decimal
+    import enum
+    import fractions
+    import time
+
+    Point = collections.namedtuple("Point", "x y")
+
+    class Colour(enum.IntEnum):
+        RED = 1
+
+    class Name(str):
+        pass
+
+    class A:
+        pass
+
+    class B(A):
+        pass
+
+    ex = [("(1, 2)", lambda: (1, 2)), ("()", lambda: ()), ("Point(1, 2)", lambda: Point(1, 2)), ("struct_time", lambda: time.gmtime(0)), ("b'x'", lambda: b"x"), ("b''", lambda: b""),
+          ("date(2020,1,1)", lambda: dtm.date(2020, 1, 1)), ("datetime(2020,1,1)", lambda: dtm.datetime(2020, 1, 1)), ("Colour.RED", lambda: Colour.RED), ("Name('a')", lambda: Name("a")), ("'a'", lambda: "a"),
+          ("Fraction(1, 2)", lambda: fractions.Fraction(1, 2)), ("Decimal('1')", lambda: decimal.Decimal("1")), ("1j", lambda: 1j), ("range(3)", lambda: range(3)), ("frozenset({1})", lambda: frozenset({1})),
+          ("A()", A), ("B()", B), ("True", lambda: True), ("1", lambda: 1), ("1.0", lambda: 1.0), ("0", lambda: 0), ("False", lambda: False), ("0.0", lambda: 0.0), ("None", lambda: None), ("[]", lambda: []), ("[0]", lambda: [0])]
+    n = 150 if tier == "quick" else 1500
+    runs = judged = 0
+    directed = [([2], [1]), ([3], [1]), ([7], [6]), ([9], [10]), ([17], [16]), ([18], [19]), ([19, 20], [18]), ([21, 22], [23]), ([0], [1]), ([4], [5]), ([18], [19, 20])]  # (F, T): subclass below base, equal across types
+    for k in range(n):
+        if k < 2 * len(directed):
+            fi, ti = directed[k // 2]
+            if k % 2:
+                fi, ti = ti, fi
+        else:
+            fi = [rng.randrange(len(ex)) for _ in range(rng.randint(1, 2))]
+            ti = [rng.randrange(len(ex)) for _ in range(rng.randint(1, 2))]
+        F, T = [ex[i][1]() for i in fi], [ex[i][1]() for i in ti]
+        items, status, _ = pull(F, T, 6, EVENTS_SHALLOW)
+        runs += 1
+        for pos, q in enumerate(items):
+            bad_t = [ex[i][0] for i, x in zip(ti, T) if call(q, x) is not True]
+            bad_f = [ex[i][0] for i, x in zip(fi, F) if call(q, x) is not False]
+            judged += 1
+            if bad_t or bad_f:
+                chk.add_failure({"exotic": True, "F": "[" + ", ".join(ex[i][0] for i in fi) + "]", "T": "[" + ", ".join(ex[i][0] for i in ti) + "]", "position": pos},
+                                {"what": "a yielded predicate does not separate the two example sets (values related by subclassing / equality across types)", "predicate": repr(q), "not_true_on": bad_t, "not_false_on": bad_f}, None)
+                break
+    chk.evaluations += judged
+    stats["exotic_example_pairs"] = runs
+    chk.extra["exotic_example_pairs"] = {"pairs": runs, "yields_judged": judged}
+
+
 def corr_mutations(chk, rng, tier):
     """create_mutations vs `mutations`; gray_product vs `grayPairs`."""
     dis = []
@@ -479,6 +535,7 @@ def main(tier):
         chk.extra["mutations_tie_skipped"] = f"{type(e).__name__}: {e}"[:300]
     idis = interleaved(chk, rng, tier, pairs, answers, limit, stats)
     changed_in_place(chk, rng, tier, pairs, answers, stats)
+    exotic_examples(chk, rng, tier, stats)
 
     # (a disagreement between model and code is a broken correspondence: finish() reports it, with the first disagreements in the replay)
 
